@@ -414,8 +414,12 @@ def full_ring_threshold(repo, res):
 
 
 def run(repo, res, tier):
-    res.rules = ["R1 single mu0 (constant folding + bindings)", "R2 BHJM return dimensions (44 obligations)", "R3 typed setter sync", "R4 None-flow", "R5 one inside-mask for J/M and for +-J", "R6 paired excitation stores atomic", "R7 every normal setter exit writes both", "R8 span-vs-360 comparisons partition the admitted spans alike"]
+    res.rules = ["R1 single mu0 (constant folding + bindings)", "R2 BHJM return dimensions (44 obligations)", "R3 typed setter sync", "R4 None-flow", "R5 one inside-mask for J/M and for +-J", "R6 paired excitation stores atomic", "R7 every normal setter exit writes both", "R8 span-vs-360 comparisons partition the admitted spans alike", "R9 per-axis siblings use one axis each"]
     scan_constants(repo, res)
+    # R9: per-axis code of the numerical layer (inside masks, bounding boxes, component formulas) is one template per axis
+    import rules_axis
+    n9 = rules_axis.run(repo, res, "R9", lambda mn: mn.startswith("magpylib._src.fields"))
+    res.require(n9 >= 20, f"R9: only {n9} per-axis groups found in the numerical layer")
     results = dim_rules.run_fields()
     res.require(len(results) >= 44, f"only {len(results)} field-function runs (expected >= 44)")
     errors = []
